@@ -57,7 +57,8 @@ class Effect:
 
 
 class Effects:
-    def __init__(self, repo: Repo, resolver: Optional[Resolver] = None, depth: int = 6):
+    def __init__(self, repo: Repo, resolver: Optional[Resolver] = None, depth: int = 6, facet: str = "coord"):
+        self.facet = facet               # 'coord': coordinate storage, 'top': topology storage, 'all'
         self.repo = repo
         self.R = resolver or Resolver(repo)
         self.depth = depth
@@ -66,14 +67,31 @@ class Effects:
         self._prov_cache: Dict[str, "FuncProv"] = {}
         self._ret: Dict[str, Set[Tuple]] = {}
         self.max_depth_seen = 0
+        # constructor aliasing first (to a fixpoint), with the caches purged in between: return summaries
+        # computed while an alias set is still incomplete must not be kept
+        prev = None
+        for _ in range(4):
+            cur = {c.qual: frozenset(self._compute_ctor_alias(c)) for c in repo.classes.values()}
+            self._alias = cur
+            self._ret, self._prov_cache, self._direct, self._summary = {}, {}, {}, {}
+            if cur == prev:
+                break
+            prev = cur
 
     COORD_CLASSES = ("AtomGro", "Residue", "Molecule", "Atom", "System", "SystemGro")
+    TOP_CLASSES = ("AtomTop", "MoleculeTop", "Molecule", "Atom", "System")
 
     def is_coord_type(self, t) -> bool:
+        """Is a value of type t able to carry storage of the analysed facet?"""
         if not t:
             return False
         if t[0] == "cls":
-            return t[1].split(".")[-1] in self.COORD_CLASSES
+            nm = t[1].split(".")[-1]
+            if self.facet == "top":
+                return nm in self.TOP_CLASSES
+            if self.facet == "all":
+                return nm in self.TOP_CLASSES or nm in self.COORD_CLASSES
+            return nm in self.COORD_CLASSES
         if t[0] in ("list", "set", "iter", "tuple*"):
             return self.is_coord_type(t[1]) or t[1] is None
         if t[0] == "tuple":
@@ -83,13 +101,12 @@ class Effects:
         return False
 
     def ctor_alias_params(self, c) -> Set[str]:
-        """Parameters of C.__init__ whose (coordinate-typed, mutable) value is kept by reference."""
-        key = "alias:" + c.qual
-        if key in self._ret:
-            return self._ret[key]           # type: ignore
+        """Parameters of C.__init__ whose (facet-typed, mutable) value is kept by reference."""
+        return set(getattr(self, "_alias", {}).get(c.qual, ()))
+
+    def _compute_ctor_alias(self, c) -> Set[str]:
         init = self.repo.lookup_member(c, "__init__", "method")
         out: Set[str] = set()
-        self._ret[key] = out                 # type: ignore
         if init is None:
             return out
         env = self.R.env(init)
